@@ -51,7 +51,7 @@ def run(tier):
     ck.coverage["programs_discarded_by_model"] = discarded
     return ck.finish("iteration programs (for over every iterable kind incl. user iterator classes, map/filter chains "
                      "of depth <= 4 ending in collect/reduce/for, shared and nested iterators, break/continue/return, "
-                     "mutation during iteration) against the model; non-trivial = distinct program printing >= 3 lines")
+                     "mutation during iteration, iterator-vs-mutation histories, ended iterators asked again, chains whose stages log their calls, UTF-8 boundary strings) against the model; non-trivial = distinct program printing >= 3 lines")
 
 
 def replay(data):
